@@ -14,6 +14,7 @@ import copy
 import importlib
 import importlib.util
 import json
+import re
 import os
 import random
 import sys
@@ -258,9 +259,12 @@ def check_once(c, mod, fun, args):
         if bool(call_clause(c.funcs[cl], env)):
             return dict(clause=f"raises-if::{e}:{cl}", observed=f"returned normally: {repr(result)[:200]}")
     env["result"] = result
+    only = os.environ.get("PYVC_RT_CLAUSES")
     for name in c.ensures:
         if name in c.opts.get("static_only", ()):
             continue
+        if only and name in c.opts.get("assumed", {}) and not re.search(only, name):
+            continue          # bounded clauses that belong to another property's check
         try:
             ok = bool(call_clause(c.funcs[name], env))
         except Exception as e:      # a clause that cannot be evaluated on the result is a violated clause
@@ -297,6 +301,7 @@ def search(path, qual, seed, n, out, budget_s=20.0):
     rnd = random.Random(seed)
     gen = getattr(mod, c.opts.get("generator", "") or "", None)
     tried = valid = 0
+    known_hits = {}
     t0 = time.time()
     while tried < n and time.time() - t0 < budget_s:
         tried += 1
@@ -319,11 +324,34 @@ def search(path, qual, seed, n, out, budget_s=20.0):
         saved = {k: jsonable(v) for k, v in args.items()}
         v = check_once(c, mod, fun, args)
         if v is not None:
+            k = known_match(qual, v, saved)
+            if k is not None:
+                known_hits[k] = known_hits.get(k, 0) + 1       # a listed finding: counted, the search goes on
+                continue
             json.dump(dict(status="violation", contracts=os.path.abspath(path), function=qual, args=saved, violated=v,
                            seed=seed, tried=tried, valid=valid), open(out, "w"), indent=1)
             return 1
-    json.dump(dict(status="none", tried=tried, valid=valid, seed=seed), open(out, "w"))
+    json.dump(dict(status="none", tried=tried, valid=valid, seed=seed, known_hits=known_hits), open(out, "w"))
     return 0
+
+
+def known_match(qual, v, saved):
+    """index (name) of the committed known finding this violation is an instance of, or None.  An entry names the function
+    (regex), the violated clause (regex) and a predicate over the generated input - a different violation is not matched."""
+    path = os.environ.get("PYVC_RT_KNOWN")
+    if not path or not os.path.exists(path):
+        return None
+    for k in json.load(open(path)).get("findings", []):
+        if k.get("status") != "known" or "match" not in k:
+            continue
+        if not re.search(k["function"], qual) or not re.search(k["clause"], v["clause"]):
+            continue
+        try:
+            if eval(k["match"], {"args": saved, "r": next((x.get("__rfa__") for x in saved.values() if isinstance(x, dict) and "__rfa__" in x), None)}):
+                return k["id"]
+        except Exception:
+            continue
+    return None
 
 
 def replay(path):
